@@ -639,3 +639,58 @@ def parentloop_programs():
             out.append(("parentloop:template/child-template", prog(mode, lib, [("comp", "pa", passl, False, [])]), grid, None))
             out.append(("parentloop:page/child-template", prog(mode, [ch_read], loops([("comp", "ch", [], False, [])])), grid, None))
     return out
+
+
+# ---------------------------------------------------------------------------------------------------------------
+# outside the calculus: `... as var` tags written directly in a component body bind a variable BETWEEN tag and fill
+# (they write into the layer that is on top while the body is rendered).  Expected output computed here.
+# ---------------------------------------------------------------------------------------------------------------
+def asvar_programs():
+    """[(name, prog, expected, ni_partner or None)]: ni_partner = the same program with another value of the outer page
+    variable x (isolated mode: the outputs must be identical - x is re-bound before the fills and never passed)"""
+    T = lambda s: ("text", s)                                   # noqa
+    binders = {"firstof-lit": ('{% firstof v1 "lit" as x %}', lambda v1: v1 or "lit"),
+               "firstof-var": ('{% firstof v1 "lit" as x %}', lambda v1: v1 or "lit"),
+               "cycle": ("{% cycle 'a' 'b' as x silent %}", lambda v1: "a")}
+    out = []
+    for mode in ("isolated", "django"):
+        for bname in sorted(binders):
+            src, val = binders[bname]
+            v1 = "V1" if bname == "firstof-var" else ""
+            for where in ("page", "template"):
+                for page_x in (None, "PX"):
+                    for inner_x in (None, "IX"):
+                        for only in ((False, True) if mode == "isolated" else (False,)):
+                            for in_if in (False, True):
+                                if mode == "django" and where == "template" and inner_x:
+                                    continue      # nested tag + inner data of the same name: recorded class K_DJ_BTW
+                                if in_if and (page_x or inner_x or only):
+                                    continue
+                                if bname == "cycle" and page_x:
+                                    continue      # Django's {% cycle .. as x %} uses set_upward: it overwrites an existing outer x
+
+                                asval = val(v1)
+                                fx = asval if (mode == "isolated" or not inner_x) else inner_x
+                                tx = inner_x or ("" if mode == "isolated" else (page_x or ""))
+                                binder = [T("{% if yes %}" + src + "{% endif %}")] if in_if else [T(src)]
+                                body = binder + [("fill", ("str", "s1"), None, None, [T("["), ("out", ("var", "x")), T("]")]), T(" "),
+                                                 ("fill", ("str", "s2"), None, None, [T("["), ("out", ("var", "x")), T("!]")])]
+                                a = ("A", {"tpl": [T("A:"), ("out", ("var", "x")), T(";("), ("slot", "s1", False, False, [], []), T(")("),
+                                                   ("slot", "s2", False, False, [], []), T(")")],
+                                           "data": [("x", ("str", inner_x))] if inner_x else []})
+                                tag = ("comp", "A", [], only, body)
+                                exp = "A:%s;([%s])([%s!])" % (tx, fx, fx)
+
+                                def mk(px):
+                                    ctx = [("v1", v1), ("yes", "1")] + ([("x", px)] if px else [])
+                                    if where == "page":
+                                        return {"mode": mode, "lib": [a], "page": [tag], "ctx": ctx, "nerr": 0}
+                                    p = ("P", {"tpl": [T("P:"), tag, T(".")], "data": [("v1", ("kw", "v")), ("yes", ("str", "1"))]})
+                                    return {"mode": mode, "lib": [a, p], "page": [("comp", "P", [("v", ("var", "v1"))], False, [])], "ctx": ctx, "nerr": 0}
+                                if where == "template":
+                                    exp = "P:" + exp + "."
+                                name = "asvar:%s/%s%s%s%s%s" % (bname, where, "-only" if only else "", "-pagex" if page_x else "",
+                                                                 "-innerx" if inner_x else "", "-if" if in_if else "")
+                                partner = mk("PX2") if (mode == "isolated" and page_x) else None
+                                out.append((name, mk(page_x), exp, partner))
+    return out
